@@ -54,6 +54,8 @@ TRUSTED = [
     "(= exact membership on the generated grids), np.unique(axis=1) (= C46.uniqueCoords)",
     "the SparseNdArray model and its refinement theorem are those of C46 (lean/PorepyVerif/C46)",
     "binary64 rounding: the theorems are over exact rationals; the correspondence check only generates inputs on which binary64 is exact",
+    "withheld assignment: when only some base vertices are missing the code raises numpy's ValueError (ragged np.ravel) just before its "
+    "assertion; model and code are compared on the refusal only, not on the error class",
     "numpy negative-index wrap-around is not modelled (indices are proved in range); assign_values is covered for the documented use "
     "(columns = the points returned by quadrature_points_from_coordinates, any order, indices passed), not for arbitrary user coordinates",
 ]
@@ -64,7 +66,10 @@ EXPLANATION = ("FULL over exact rationals: model = base-vertex search, weights, 
                "along every history of queries (any functions; vector-valued; gradients on upper faces for multilinear functions); "
                "assign_values with the columns in any permutation builds exactly the table _fill_values builds, hence the table fed from "
                "outside also equals the standard table; the safeguarding branch of _find_base_vertex is characterised (incl. the quirk that "
-               "endangerment on axis 0 alone never triggers it) and proved never to change an answer. "
+               "endangerment on axis 0 alone never triggers it) and proved never to change an answer; assign_values without indices "
+               "(indices recovered by floor division) is the same assignment; out-of-box queries give ValueError for every table; "
+               "the hypotheses WF / in-box / axis-in-range are Boolean input conditions (wfB, inBoxB, axisOkB) that the driver evaluates "
+               "on every case and the harness cross-checks (part 'pre'). "
                "Correspondence compares values, errors and the adaptive table's storage exactly (scalar and vector-valued, explicit and default base point).")
 ASSUMPTIONS = ["low < high and npt >= 2 on every axis (otherwise h is 0 or undefined)",
                "query arrays have exactly d rows",
@@ -291,7 +296,7 @@ def gen_case(rng, tier):
         if rng.random() < 0.12:
             npt = [2] * d  # smallest admissible grid: one cell
             strata.append("min_grid")
-        if d <= 2 and kind != "general" and rng.random() < 0.10:
+        if d <= 2 and kind != "general" and rng.random() < 0.25:
             # extreme scale: a box far from the origin with a fine mesh
             low = [F(rng.choice([-1, 1]) * rng.randint(200, 1000)) for _ in range(d)]
             h = [F(rng.choice([1, 3]), 1 << rng.randint(3, 5)) for _ in range(d)]
@@ -589,8 +594,9 @@ def oracle(case):
         inside = all(_in_box(case, p) for p in pts)
         bad_axis = call["op"] == "grad" and not (0 <= call["axis"] < d)
         std = None
+        xs_ = x[:, 0] if (len(pts) == 1 and case.get("rot", 0) % 2 == 0) else x  # single point as a 1-d array
         try:
-            std = np.atleast_2d(t.interpolate(x) if call["op"] == "interp" else t.gradient(x, call["axis"]))
+            std = np.atleast_2d(t.interpolate(xs_) if call["op"] == "interp" else t.gradient(xs_, call["axis"]))
         except ValueError as e:
             if inside:
                 return {"what": f"call {ci} ({call['op']}) raised ValueError for points inside the closed box: {pts}", "key": "inbox-raises"}
